@@ -218,7 +218,13 @@ func ruleSHADOW(p *Program, rep *Report) {
 					for outer.Parent() != nil {
 						outer = outer.Parent()
 					}
+					hdrUse := false
+					if c, ok := ins.(ssa.CallInstruction); ok && c.Common().StaticCallee() == g && len(c.Common().Args) > 1 && derivesFromField(c.Common().Args[1], ov.metaActive, 0) {
+						hdrUse = true
+					}
 					switch {
+					case hdrUse:
+						rep.OK("SCHEDULE-SITES", key, p.InstrPos(ins), "header write (slot derived from File.metaActive), decided by ORDER/SLOT")
 					case f == v.doFlush:
 						rep.OK("SCHEDULE-SITES", key, p.InstrPos(ins), "decided by SHADOW")
 					case usedOnlyAsSerializeCallback(ins, g, walSer, allocSer) || wrapperOnlyForSerialize(p, f, walSer, allocSer):
@@ -549,5 +555,82 @@ func ruleSETBYTESBOUND(p *Program, rep *Report) {
 	}
 	if n == 0 {
 		rep.Bad("SETBYTES-BOUND", "Page.SetBytes|no-write", p.Pos(fn.Pos()), "anchor lost: SetBytes no longer writes the buffer")
+	}
+}
+
+// ruleCHECKPOINTCOMPLETE (C03): the WAL checkpoint may leave out a mapping entry only for a page that is
+// dirty in this transaction (its overwrite page is released when the page is flushed).  On an automatic
+// checkpoint the new mapping consists of this transaction's entries only, so any other skipped entry
+// silently drops committed contents.
+func ruleCHECKPOINTCOMPLETE(p *Program, rep *Report) {
+	rep.Rule("CHECKPOINT-COMPLETE", 1, "in Tx.doCheckpointWAL every iteration over the committed overwrite mapping either records the entry for copy-back (and release) or skips it under page.flags.dirty == true — no other skip condition")
+	fn := p.Method("txfile", "Tx", "doCheckpointWAL")
+	mapping := p.FieldVar("txfile", "waLog", "mapping")
+	dirty := p.FieldVar("txfile", "pageFlags", "dirty")
+	rep.Analysed(funcName(fn))
+	// the loop: a Next instruction over a Range of the mapping
+	var header *ssa.BasicBlock
+	for _, b := range fn.Blocks {
+		for _, ins := range b.Instrs {
+			if nx, ok := ins.(*ssa.Next); ok {
+				if rg, ok := nx.Iter.(*ssa.Range); ok && loadedField(rg.X) == mapping {
+					header = b
+				}
+			}
+		}
+	}
+	if header == nil {
+		rep.Unknown("CHECKPOINT-COMPLETE", "Tx.doCheckpointWAL|loop", p.Pos(fn.Pos()), "no range loop over waLog.mapping found (anchor lost)")
+		return
+	}
+	// blocks that record the entry (append to a []PageID)
+	rec := map[*ssa.BasicBlock]bool{}
+	for _, b := range fn.Blocks {
+		for _, ins := range b.Instrs {
+			if c, ok := ins.(*ssa.Call); ok {
+				if bi, ok := c.Common().Value.(*ssa.Builtin); ok && bi.Name() == "append" {
+					if sl, ok := c.Type().Underlying().(*types.Slice); ok && isNamed(sl.Elem(), modPath, "PageID") {
+						rec[b] = true
+					}
+				}
+			}
+		}
+	}
+	if len(rec) == 0 {
+		rep.Unknown("CHECKPOINT-COMPLETE", "Tx.doCheckpointWAL|record", p.Pos(fn.Pos()), "the loop no longer records entries (anchor lost)")
+		return
+	}
+	// back edges into the header from blocks not dominated by a recording block
+	n := 0
+	for _, pred := range header.Preds {
+		if !header.Dominates(pred) {
+			continue // loop entry
+		}
+		recorded := false
+		for r := range rec {
+			if r == pred || r.Dominates(pred) {
+				recorded = true
+			}
+		}
+		if recorded {
+			continue
+		}
+		n++
+		good := edgeFacts(pred, header, 0, map[ssa.Value]bool{}).every(func(cj conj) bool {
+			return cj.has(func(a atom) bool { return loadedField(a.v) == dirty && a.pol })
+		})
+		// facts of the skipping block itself
+		good = good || blockFacts(pred).every(func(cj conj) bool {
+			return cj.has(func(a atom) bool { return loadedField(a.v) == dirty && a.pol })
+		})
+		key := "Tx.doCheckpointWAL|skip"
+		if good {
+			rep.OK("CHECKPOINT-COMPLETE", key, p.InstrPos(pred.Instrs[len(pred.Instrs)-1]), "entry skipped only under page.flags.dirty == true")
+		} else {
+			rep.Bad("CHECKPOINT-COMPLETE", key, p.InstrPos(pred.Instrs[len(pred.Instrs)-1]), "the checkpoint can skip a committed overwrite-mapping entry on a path where the page is not dirty: the entry is neither copied back nor kept by an automatic checkpoint, readers fall back to the stale original page")
+		}
+	}
+	if n == 0 {
+		rep.OK("CHECKPOINT-COMPLETE", "Tx.doCheckpointWAL|no-skip", p.Pos(fn.Pos()), "every iteration records the entry")
 	}
 }
